@@ -244,6 +244,10 @@ let query_bnd_kind (s : mesh) (walks : string list) (kn, k) =
          let (vals, fin) = fwd b [] in
          pr "BI %s fwd : %s | %s\n" kn (String.concat " " (List.map string_of_int vals)) (bobs fin);
          let live = has_live s k in
+         if b.b_valid then begin
+           let p1 = get (bnd_next k s b) in
+           pr "BI %s arith : %s %s\n" kn (bobs p1) (if live then bobs (get (bnd_prev k s p1)) else "s")
+         end;
          List.iter (fun w ->
              let c = ref b in
              let out = ref [] in
